@@ -13,7 +13,13 @@ def _graph(G, n, edges, build="plain", warm=None):
     in which each edge is handed to add_edge ('flipped': (v,u); 'mixed': every other one) and the
     object's history ('grown': the graph is first USED with only half of its edges through `warm`,
     then completed) - the result must be the same graph."""
+    if SHARE["on"]:
+        key = (n, tuple(tuple(e) for e in edges), build)
+        if SHARE.get("key") == key and SHARE.get("g") is not None:
+            return SHARE["g"]        # second posting on the SAME Graph object
     g = G.Graph(n)
+    if SHARE["on"]:
+        SHARE["key"], SHARE["g"] = (n, tuple(tuple(e) for e in edges), build), g
     k = len(edges) // 2 if build == "grown" else len(edges)
     def put(i):
         u, v = edges[i]
@@ -32,6 +38,8 @@ def _graph(G, n, edges, build="plain", warm=None):
             put(i)
     return g
 
+
+SHARE = {"on": False, "g": None, "key": None}      # set by emission.run_instance for the shared-graph two-posting variant
 
 BUILDS = ("plain", "flipped", "mixed", "grown")
 
@@ -539,6 +547,22 @@ def deep_alphas(d):
         bases = [[0] * n, [min(i * R // n, R - 1) for i in range(n)], [(R - 1) if i == n - 1 else 0 for i in range(n)],
                  [i % R for i in range(n)]]
         return [a for b in bases for a in _mutations(b, rnd, 4, values=tuple(range(R)))]
+    if f in ("active_edges_single_cycle", "active_edges_single_path", "active_edges_acyclic") and d.get("cycles_of_complete_graph"):
+        # every Hamiltonian cycle of the complete graph, two triangles-plus and the empty set: pairs of them (two
+        # postings) include edge-disjoint cycles on the same vertices, which admit no common orientation certificate
+        n, edges = _struct(d)
+        idx = {tuple(sorted(e)): i for i, e in enumerate(edges)}
+        out, seen = [], set()
+        for perm in itertools.permutations(range(1, n)):
+            cyc = (0,) + perm
+            es = frozenset(tuple(sorted((cyc[i], cyc[(i + 1) % n]))) for i in range(n))
+            if es in seen:
+                continue
+            seen.add(es)
+            out.append([edges[i] is not None and tuple(sorted(edges[i])) in es for i in range(len(edges))])
+        out.append([False] * len(edges))
+        out.append([tuple(sorted(e)) in {(0, 1), (1, 2), (0, 2)} for e in edges])
+        return out
     if f in ("active_edges_single_cycle", "active_edges_single_path", "active_edges_acyclic"):
         m = len(_edges_of(d))
         bases = [[True] * m, [True] * (m - 1) + [False], [False] * m, [i % 2 == 0 for i in range(m)], [False] + [True] * (m - 1)]
@@ -791,6 +815,9 @@ def deep_descs(prop, tier):
                 out.append(dict(func="active_edges_single_cycle", n=n, edges=C(n), prim=prim, form="vars", deep=True))
                 out.append(dict(func="active_edges_single_cycle", n=n, edges=C(n) + [[0, 1]], prim=prim, form="vars", deep=True))
             out.append(dict(func="active_edges_single_path", n=n, edges=P(n), prim=True, form="vars", deep=True))
+        K5 = [[u, v] for u in range(5) for v in range(u + 1, 5)]
+        for prim in (False, True):
+            out.append(dict(func="active_edges_single_cycle", n=5, edges=K5, prim=prim, form="vars", deep=True, cycles_of_complete_graph=True))
         for fr in ((3, 3), (2, 5), (5, 2), (3, 4), (4, 3), (2, 7)) + (((4, 4), (5, 5), (3, 6)) if big else ()):
             for prim in (False, True) if fr[0] * fr[1] <= 10 else (False,):
                 out.append(dict(func="active_edges_single_cycle", frame=list(fr), prim=prim, deep=True))
